@@ -34,6 +34,9 @@ def root_families():
         "cubic": (1, lambda x, d: x * x * x + x - d[0], None, [3.0], 1.0),
         "affine3": (3, lambda x, d: d[0] * x + d[1] - d[2], lambda d: (d[2] - d[1]) / d[0], [1.6, 0.4, 2.9], 1.0),
         "expvec": (2, lambda x, d: d[0] * X.exp(d[1] * x) - 1, lambda d: -X.log(d[0]) / d[1], [0.4, 0.7], 1.0),
+        # first input with central value exactly 0.0 (vacuum-subtracted quantity, vanishing correction) and a non-zero root
+        "zerofirst": (1, lambda x, d: x * x * x - 2 - d[0], lambda d: X.exp(X.log(2 + d[0]) / 3), [0.0], 1.0),
+        "zerovec": (2, lambda x, d: X.exp(x) - d[1] - d[0] * x, None, [0.0, 2.5], 1.0),
         "cubicvec": (2, lambda x, d: d[0] * x ** 3 + X.sin(x) - d[1], None, [0.8, 2.2], 1.0),
     }
 
@@ -71,6 +74,11 @@ def run(ctx):
         if kind == "cov":
             o = pe.cov_Obs(centre, (rel * abs(centre) + 0.01) ** 2, "cv%dx%d" % (i, next(uniq)))
             return o
+        if centre == 0.0:
+            lay = base if shared else obsutil.gen_layout(rng, nmin=8, nmax=24, max_ens=2, ens_names=["R%dx%d" % (i, next(uniq)), "S%dx%d" % (i, next(uniq))])
+            o = obsutil.make_obs(pe, rng, lay, "int")
+            o = (o - o.value) * (rel / 3.0)
+            return o - o.value          # central value exactly 0.0
         lay = base if shared else obsutil.gen_layout(rng, nmin=8, nmax=24, max_ens=2, ens_names=["R%dx%d" % (i, next(uniq)), "S%dx%d" % (i, next(uniq))])
         if shared and rng.random() < 0.4:
             lay = obsutil.derive_layout(rng, base, rng.choice(["subset_prefix", "superset", "subset_stride", "missing_rep"]))
@@ -126,7 +134,7 @@ def run(ctx):
         try:
             with warnings.catch_warnings():
                 warnings.simplefilter("ignore")
-                vals = list(centres) + [a0, b0]
+                vals = list(centres) + ([a0, b0] if rng.random() < 0.6 else [b0, a0])       # ascending and descending limits
                 inputs = [make_input(1000 + i, v, base, shared) if ob else float(v) for v, ob in zip(vals, isobs)]
                 pvars = [E.var(npar_i) for npar_i in range(npar)]
                 fexpr = fb(pvars, E.var(npar))
